@@ -96,6 +96,19 @@ def build(tier, seed):
             bounds="symbolic code point at the %s of a 3-character text" % pos,
             what="boundary clause: character at the %s of the text is decoded intact" % pos,
         ))
+    # O2b: two independent symbolic code points in one text (adjacent escapes, surrogate pairs next to each other)
+    obs.append(Ob(
+        oid="O2b.two_characters", sig="cp: int, cq: int, conv: bool",
+        pre=CP_PRE + CONV_PRE + [p.replace("cp", "cq") for p in CP_PRE + CONV_PRE] + ["(not conv) or not (cp in (62, 60) and cq == 61)"],
+        templates=True, timeout=T, header=HDR,
+        body=r'''
+    holes_reset()
+    out = TextContent._convert_special_chars(NS(text=chr(cp) + chr(cq), convert=conv))
+    return decodes_to(out, [cp, cq])
+''',
+        funcs=["rtflite.row:TextContent._convert_special_chars"],
+        bounds="a text of two independent symbolic code points (each over all scalar values as in O1)",
+        what="two adjacent characters of any classes (ASCII, BMP, astral) are both read back intact, in order"))
     # O3: subline_by heading path
     obs.append(Ob(
         oid="O3.subline_heading", sig="cp: int", pre=CP_PRE, templates=True, timeout=T,
